@@ -142,7 +142,7 @@ fn gen_case(rng: &mut Rng, stream: Stream, depth: u32) -> Case {
         let pats: Vec<Vec<u8>> = (0..npats).map(|_| if stream == Stream::OfZero { pool_next += 1; pool[pool_next - 1].clone() } else { rng.pick(&pool).clone() }).collect();
         let refs: Vec<usize> = (0..i).filter(|j| rules[*j].ns == ns && (!global || rules[*j].global)).collect();
         let mut g = Gen { rng, npats, fsize: data.len() as i64, scope: vec![], for_of: 0, refs, next_var: 0, slots: 0,
-                          max_slots: 58, budget: 30 + 10 * depth as i32, stream: if special { stream } else { Stream::Main }, zero_of: special && stream == Stream::OfZero };
+                          max_slots: 58, budget: 30 + 10 * depth as i32, stream: if special { stream } else { Stream::Main }, zero_of: special && stream == Stream::OfZero, iters: 1 };
         let d = if big { depth.min(2) } else { depth };
         let cond = if !special { g.gen_bool(d) } else {
             let t = match stream {
